@@ -23,9 +23,12 @@ import sys
 import time
 
 ROOT = os.path.dirname(os.path.dirname(os.path.abspath(__file__)))
-REPO = "/repo"
+# VERIF_SANDBOX=<dir> (made by bin/mutant-sandbox) redirects the code under test to <dir>/repo and the
+# harness build to <dir>/harness: used only for mutation self-tests, never by registered checks.
+_SB = os.environ.get("VERIF_SANDBOX")
+REPO = os.path.join(_SB, "repo") if _SB else "/repo"
 SPECS = os.path.join(ROOT, "specs")
-HARNESS = os.path.join(ROOT, "harness")
+HARNESS = os.path.join(_SB, "harness") if _SB else os.path.join(ROOT, "harness")
 EVID = os.path.join(ROOT, "evidence")
 REPLAYS = os.path.join(ROOT, "replays")
 CACHE = os.path.join(ROOT, ".cache")
@@ -92,6 +95,9 @@ def build_harness(binname):
         return os.path.join(HARNESS, "target/debug", binname)
     env = dict(os.environ, CARGO_NET_OFFLINE="true", RUST_BACKTRACE="0")
     t0 = time.time()
+    if _SB:
+        # keep the sandbox's harness sources in step with /verif/harness
+        subprocess.run(["rsync", "-a", "--delete", "--exclude", "target", os.path.join(ROOT, "harness") + "/", HARNESS + "/"], check=True)
     r = subprocess.run(["cargo", "build", "--offline", "--bin", binname], cwd=HARNESS, env=env,
                        stdout=subprocess.PIPE, stderr=subprocess.STDOUT, text=True)
     if r.returncode != 0:
@@ -283,7 +289,7 @@ def run_harness(binpath, cases_path, trace_path, ncases, per_case_ms=20000, tota
     if os.path.exists(trace_path):
         os.remove(trace_path)
     skip, restarts = 0, 0
-    env = dict(os.environ, RUST_BACKTRACE="0", RUST_LIB_BACKTRACE="0")
+    env = dict(os.environ, RUST_BACKTRACE="0", RUST_LIB_BACKTRACE="0", AVH_REPO=REPO)
     t0 = time.time()
     while skip < ncases:
         try:
